@@ -11,7 +11,11 @@ pub enum Ev { Out(String), Ans(Vec<T>) }
 #[derive(Clone, Copy, Debug, PartialEq)]
 enum Sig { Cont, CutFail(usize), NotFound(usize), Stop }
 
-enum K { Done, Goal(Rc<G>, usize, Rc<K>), Pop(usize, Rc<K>), NotEnd(usize) }
+enum K { Done, Goal(Rc<G>, usize, Rc<K>), Pop(usize, Rc<K>), NotEnd(usize),
+         /// a cut written directly in the goal list of conjunction instance `.0`
+         CutIn(usize, usize, Rc<K>),
+         /// end of the goal list of conjunction instance `.0` (only placed when the list has a cut)
+         EndAnd(usize, usize, Rc<K>) }
 
 #[derive(Default, Clone, Debug)]
 pub struct Stats {
@@ -42,13 +46,37 @@ pub struct Interp<'p> {
     /// number of open choice points (clause alternatives / or alternatives) per frame, used
     /// only for the "cut with pending alternatives" statistic
     choice_depth: usize,
+    /// How a failure is treated that comes back into a parenthesised conjunction after a cut
+    /// inside it has run and the conjunction has been left. The statement of C02 does not
+    /// say whether the goals to the right of that cut may then be retried. `true`: as the
+    /// engine documents it (backtracking is disabled on every ancestor of the cut, so the
+    /// group cannot be re-entered and the call fails); `false`: the goals after the cut
+    /// are retried like any others. Cases on which the two readings differ are outside the
+    /// claim (see `solve`).
+    pub group_cut_closed: bool,
+    and_cut: Vec<bool>,
 }
 
 pub struct RefResult { pub events: Vec<Ev>, pub stats: Stats, pub complete: bool }
 
 /// Result of running the reference: Err(reason) = out of domain / budget (case is discarded).
 pub fn solve(prog: &Program, qname: &str, qargs: &[T], max_steps: u64, max_answers: usize) -> Result<RefResult, String> {
+    let r = solve_mode(prog, qname, qargs, max_steps, max_answers, true)?;
+    if r.stats.cuts > 0 {
+        // the statement leaves one aspect of the cut open (see `group_cut_closed`): keep the
+        // case only when both readings give the same observations
+        match solve_mode(prog, qname, qargs, max_steps, max_answers, false) {
+            Ok(r2) if r2.events == r.events && r2.complete == r.complete => {}
+            Ok(_) => return Err("ood: retry of goals after a cut inside a parenthesised group is left open by the statement".into()),
+            Err(e) => return Err(e),
+        }
+    }
+    Ok(r)
+}
+
+pub fn solve_mode(prog: &Program, qname: &str, qargs: &[T], max_steps: u64, max_answers: usize, group_cut_closed: bool) -> Result<RefResult, String> {
     let mut it = Interp::new(prog);
+    it.group_cut_closed = group_cut_closed;
     it.max_steps = max_steps;
     it.max_answers = max_answers;
     let args: Vec<T> = qargs.iter().map(|t| t.rename_inst(1)).collect();
@@ -66,7 +94,7 @@ impl<'p> Interp<'p> {
     pub fn new(prog: &'p Program) -> Interp<'p> {
         Interp { prog, s: Subst::new(), events: vec![], ood: None, budget_hit: false, stats: Stats::default(), frames: vec![],
                  next_inst: 1, next_not: 0, depth: 0, max_steps: 20_000, max_depth: 3000, max_answers: 64, query_args: vec![],
-                 print_sites: vec![], choice_depth: 0 }
+                 print_sites: vec![], choice_depth: 0, group_cut_closed: true, and_cut: vec![] }
     }
 
     fn stop_ood(&mut self, why: &str) -> Sig { if self.ood.is_none() { self.ood = Some(why.to_string()); } Sig::Stop }
@@ -99,6 +127,14 @@ impl<'p> Interp<'p> {
                 }
             }
             K::Goal(g, fr, rest) => self.goal(g, *fr, rest),
+            K::CutIn(id, fr, rest) => { self.and_cut[*id] = true; self.cut(*fr, rest) }
+            K::EndAnd(id, fr, rest) => {
+                let r = self.run(rest);
+                match r {
+                    Sig::Cont if self.and_cut[*id] && self.group_cut_closed => Sig::CutFail(*fr),
+                    other => other,
+                }
+            }
         }
     }
 
@@ -106,7 +142,12 @@ impl<'p> Interp<'p> {
         match &**g {
             G::And(gs) => {
                 let mut k = rest.clone();
-                for x in gs.iter().rev() { k = Rc::new(K::Goal(Rc::new(x.clone()), fr, k)); }
+                let has_cut = gs.iter().any(|x| matches!(x, G::Cut));
+                let id = self.and_cut.len();
+                if has_cut { self.and_cut.push(false); k = Rc::new(K::EndAnd(id, fr, k)); }
+                for x in gs.iter().rev() {
+                    k = if matches!(x, G::Cut) { Rc::new(K::CutIn(id, fr, k)) } else { Rc::new(K::Goal(Rc::new(x.clone()), fr, k)) };
+                }
                 self.run(&k)
             }
             G::Or(gs) => {
@@ -134,24 +175,26 @@ impl<'p> Interp<'p> {
                     other => other,
                 }
             }
-            G::Cut => {
-                self.stats.cuts += 1;
-                if self.frames[fr].more_clauses { self.stats.cut_pending_clauses += 1; }
-                if self.frames[fr].left_choice || self.choice_depth > 0 { self.stats.cut_pending_left += 1; }
-                self.frames[fr].cut = true;
-                self.frames[fr].answered_since_cut = false;
-                let r = self.run(rest);
-                match r {
-                    Sig::Cont => {
-                        if !self.frames[fr].answered_since_cut { self.stats.cut_then_fail += 1; }
-                        Sig::CutFail(fr)
-                    }
-                    other => other,
-                }
-            }
+            G::Cut => self.cut(fr, rest),
             G::Call(name, args) => self.call(name, args, rest),
             G::Fail => Sig::Cont,
             other => self.builtin(other, rest),
+        }
+    }
+
+    fn cut(&mut self, fr: usize, rest: &Rc<K>) -> Sig {
+        self.stats.cuts += 1;
+        if self.frames[fr].more_clauses { self.stats.cut_pending_clauses += 1; }
+        if self.frames[fr].left_choice || self.choice_depth > 0 { self.stats.cut_pending_left += 1; }
+        self.frames[fr].cut = true;
+        self.frames[fr].answered_since_cut = false;
+        let r = self.run(rest);
+        match r {
+            Sig::Cont => {
+                if !self.frames[fr].answered_since_cut { self.stats.cut_then_fail += 1; }
+                Sig::CutFail(fr)
+            }
+            other => other,
         }
     }
 
